@@ -180,4 +180,12 @@ MUTANTS = [
     M("c14.2-ce-valid", "C14", "C14.2", BIF, "            dma.source.ready.eq(1),\n            If(dma.source.valid,\n                data_gen.ce.eq(1),", "            dma.source.ready.eq(1),\n            data_gen.ce.eq(1),\n            If(dma.source.valid,"),
     M("c14.3-errors", "C14", "C14.3", BIF, "                    NextValue(self.errors, self.errors + 1)\n                ),\n                If(data_counter == (self.length[ashift:] - 1),", "                    NextValue(self.errors, self.errors + 2)\n                ),\n                If(data_counter == (self.length[ashift:] - 1),"),
     M("c14.5-nodrain", "C14", "C14.5", BIF, "            If(~dma.fifo.source.valid,\n                NextState(\"DONE\"),\n            ),", "            NextState(\"DONE\"),"),
+    # ---- C08 ----
+    M("c08.1-swap-cd", "C08", "C08.1", ADF, "                cd_from = port_from.clock_domain,\n                cd_to   = port_to.clock_domain,\n                depth   = wdata_depth,", "                cd_from = port_to.clock_domain,\n                cd_to   = port_from.clock_domain,\n                depth   = wdata_depth,"),
+    M("c08.2-no-we", "C08", "C08.2", ADF, 'layout  = [("data", data_width), ("we", data_width//8)],', 'layout  = [("data", data_width)],'),
+    M("c08.1-shared-cdc", "C08", "C08.1", ADF, "self.submodules += stream.Pipeline(port_from.wdata, wdata_cdc, port_to.wdata)", "self.submodules += stream.Pipeline(port_from.wdata, cmd_cdc, port_to.wdata)"),
+    M("c08.3-always-cdc", "C08", "C08.3", XBF, 'if clock_domain != "sys":\n            new_port = LiteDRAMNativePort(', 'if True:\n            new_port = LiteDRAMNativePort('),
+    M("c08.3-renamer", "C08", "C08.3", XBF, "self.submodules += ClockDomainsRenamer(clock_domain)(\n                LiteDRAMNativePortConverter(new_port, port, reverse))", "self.submodules += LiteDRAMNativePortConverter(new_port, port, reverse)"),
+    B("c08-twin-depth", "C08", XBF, "self.submodules += LiteDRAMNativePortCDC(new_port, port)", "self.submodules += LiteDRAMNativePortCDC(new_port, port, rdata_depth=32)"),
+    B("c08-twin-kworder", "C08", ADF, "                cd_from = port_to.clock_domain,\n                cd_to   = port_from.clock_domain,\n                depth   = rdata_depth,", "                depth   = rdata_depth,\n                cd_to   = port_from.clock_domain,\n                cd_from = port_to.clock_domain,"),
 ]
